@@ -47,17 +47,19 @@ MergeProps(a, b) ==      \* union of two optional [properties |-> ...] records
   IF a = <<>> THEN b ELSE IF b = <<>> THEN a ELSE [properties |-> a.properties @@ b.properties]
 \* anc: the resources (0 root, 1 e1, 2 e2, 3 inner) whose $defs/t declares the plain-name anchor "a" - an anchor
 \* belongs to the resource that declares it: "e.json#a" designates nothing when only the root declares "a"
-TgtA(i, anc) == [const |-> Num(Mark[i + 1])] @@ (IF i \in anc THEN [anchor |-> "a"] ELSE <<>>)
-R1DocA(rid, id1, id2, loc, rf, anc) ==
-  LET inner == [id |-> IdOf(RelRef(<<"inner.json">>)), defs |-> [t |-> TgtA(3, anc)]] @@ WithRef(loc, "in", rf)
-      e1 == [id |-> id1, defs |-> [t |-> TgtA(1, anc)]] @@ MergeProps([properties |-> [in |-> inner]], WithRef(loc, "e1", rf))
+\* nm: the anchor's name ("a", or one using every character class a plain name may contain: "x-y.z_9")
+TgtN(i, anc, nm) == [const |-> Num(Mark[i + 1])] @@ (IF i \in anc THEN [anchor |-> nm] ELSE <<>>)
+R1DocN(rid, id1, id2, loc, rf, anc, nm) ==
+  LET inner == [id |-> IdOf(RelRef(<<"inner.json">>)), defs |-> [t |-> TgtN(3, anc, nm)]] @@ WithRef(loc, "in", rf)
+      e1 == [id |-> id1, defs |-> [t |-> TgtN(1, anc, nm)]] @@ MergeProps([properties |-> [in |-> inner]], WithRef(loc, "e1", rf))
       \* two fixed referrers with the SAME reference text "#/$defs/t" in different resources:
       \* a pointer fragment is evaluated against the resource the non-fragment part selects
       fix == [properties |-> [r0 |-> [ref |-> LocalRef(PDefsT)]]]
-      e2 == [id |-> id2, defs |-> [t |-> TgtA(2, anc)]] @@ MergeProps(fix, WithRef(loc, "e2", rf))
+      e2 == [id |-> id2, defs |-> [t |-> TgtN(2, anc, nm)]] @@ MergeProps(fix, WithRef(loc, "e2", rf))
   IN (IF rid = <<>> THEN <<>> ELSE [id |-> rid[1]])
-     @@ [defs |-> [t |-> TgtA(0, anc)]]
+     @@ [defs |-> [t |-> TgtN(0, anc, nm)]]
      @@ MergeProps(MergeProps([properties |-> [e1 |-> e1, e2 |-> e2]], fix), WithRef(loc, "root", rf))
+R1DocA(rid, id1, id2, loc, rf, anc) == R1DocN(rid, id1, id2, loc, rf, anc, "a")
 R1Doc(rid, id1, id2, loc, rf) == R1DocA(rid, id1, id2, loc, rf, 0..3)
 \* instance that routes the mark m to the referrer at loc
 Route(loc, v) ==
@@ -65,15 +67,17 @@ Route(loc, v) ==
     [] loc = "e1"   -> Obj([e1 |-> Obj([r |-> v])])
     [] loc = "in"   -> Obj([e1 |-> Obj([in |-> Obj([r |-> v])])])
     [] loc = "e2"   -> Obj([e2 |-> Obj([r |-> v])])
-R1CasesA(fs, ancs) ==
-  {[u |-> [docs |-> <<[uri |-> b, s |-> R1DocA(rid, id1, id2, loc, Ref(ru, f), anc)]>>],
+R1CasesN(fs, ancs, nm) ==
+  {[u |-> [docs |-> <<[uri |-> b, s |-> R1DocN(rid, id1, id2, loc, Ref(ru, f), anc, nm)]>>],
     insts |-> [i \in 1..5 |-> Route(loc, IF i = 5 THEN Str("a") ELSE Num(Mark[i]))]
               \o [i \in 1..4 |-> Obj([r0 |-> Num(Mark[i])])] \o [i \in 1..4 |-> Obj([e2 |-> Obj([r0 |-> Num(Mark[i])])])]] :
       b \in R1Bases, rid \in (IF K >= 2 THEN R1RootIds ELSE {<<>>, <<IdOf(RelRef(<<"rid.json">>))>>}),
       id1 \in (IF K >= 2 THEN R1Ids1 ELSE {IdOf(RelRef(<<"e.json">>)), IdOf(H2(<<"e.json">>))}),
       id2 \in (IF K >= 3 THEN R1Ids2 ELSE {IdOf(RelRef(<<"f.json">>))}),
       loc \in Locs, ru \in R1RefURIs, f \in fs, anc \in ancs}
+R1CasesA(fs, ancs) == R1CasesN(fs, ancs, "a")
 R1Cases(z) == R1CasesA(Frags, {0..3}) \cup R1CasesA({FragName("a")}, {{0}, {1, 2, 3}})
+              \cup R1CasesN({FragName("x-y.z_9")}, {0..3}, "x-y.z_9")
 
 \* ------------------------------------------------------------ R2: Loader documents
 \* chains, diamonds, cycles, canonical-vs-retrieval aliases, faults
